@@ -98,6 +98,7 @@ enum Op {
     Append(usize),
     Reserve(usize),
     Truncate(usize), // truncate to len - n
+    List(usize),     // sized_iter_to_heap_list over n fixnums
 }
 
 fn op_text(o: &Op) -> String {
@@ -110,6 +111,7 @@ fn op_text(o: &Op) -> String {
         Op::Append(n) => format!("append:{}", n),
         Op::Reserve(n) => format!("reserve:{}", n),
         Op::Truncate(n) => format!("truncate:{}", n),
+        Op::List(n) => format!("list:{}", n),
     }
 }
 
@@ -132,6 +134,7 @@ fn parse_op(t: &str) -> Op {
         "append" => Op::Append(parts[1].parse().unwrap()),
         "reserve" => Op::Reserve(parts[1].parse().unwrap()),
         "truncate" => Op::Truncate(parts[1].parse().unwrap()),
+        "list" => Op::List(parts[1].parse().unwrap()),
         _ => panic!("bad op {t}"),
     }
 }
@@ -162,6 +165,9 @@ fn alphabet() -> Vec<Op> {
     }
     v.push(Op::Truncate(1));
     v.push(Op::Truncate(2));
+    for n in 0..=3 {
+        v.push(Op::List(n));
+    }
     v
 }
 
@@ -274,6 +280,16 @@ fn execute(levels: &[usize], tight: bool, ops: &[Op]) -> Result<(u64, bool), Str
                     }
                     if h.cell_len() != n + k {
                         return Err(format!("reserve+fill length {} != {}", h.cell_len(), n + k));
+                    }
+                }
+                Op::List(k) => {
+                    let n = h.cell_len();
+                    if !h.list_from_fixnums(*k) {
+                        return Err("sized_iter_to_heap_list failed".into());
+                    }
+                    let want = if *k == 0 { 0 } else { 2 * k + 1 };
+                    if h.cell_len() != n + want {
+                        return Err(format!("list of {} elements took {} cells instead of {}", k, h.cell_len() - n, want));
                     }
                 }
                 Op::Truncate(k) => {
